@@ -449,6 +449,9 @@ theorem apply_ow {s s' : St} {o : Op} (h : OwnersNotBlocked s) (ho : creatorOk o
   | transferOwner sg ra no =>
     obtain ⟨r, hg, _, _, hnb, rfl⟩ := transferOwner_ok e
     exact RaAll.setRa h hnb
+  | setSeqParams au sp =>
+    obtain ⟨_, hnp, _, rfl⟩ := setSeqParams_ok e
+    exact ras_eq h rfl
   | begin_ dt => simp only [apply] at e; injection e with e; subst e; exact beginBlock_ow h
   | end_ f => simp only [apply] at e; injection e with e; subst e; exact endBlock_ow h
 
